@@ -134,7 +134,6 @@ func (am *assetMgr) loadAsset(logger *slog.Logger, mpdPath string) error {
 		}
 	}
 	md.Dur = mpd.MediaPresentationDuration.String()
-	asset.MPDs[mpdName] = md
 
 	fillContentTypes(assetPath, mpd.Periods[0])
 
@@ -157,18 +156,21 @@ func (am *assetMgr) loadAsset(logger *slog.Logger, mpdPath string) error {
 			if len(r.Segments) == 0 {
 				return fmt.Errorf("rep %s of type %s has no segments", rep.Id, r.ContentType)
 			}
-			asset.Reps[r.ID] = r
-			avgSegDurMS := int(math.Round(float64(r.duration()*1000.0)) / float64((r.MediaTimescale * len(r.Segments))))
-			if asset.SegmentDurMS == 0 || avgSegDurMS < asset.SegmentDurMS {
-				asset.SegmentDurMS = avgSegDurMS
-			}
 			if as.ContentType == "audio" {
 				if r.ConstantSampleDuration == nil || *r.ConstantSampleDuration == 0 {
 					return fmt.Errorf("asset %s audio rep %s does not have (known) constant sample duration", assetPath, r.ID)
 				}
 			}
+			// Register the representation only after all checks have passed
+			asset.Reps[r.ID] = r
+			avgSegDurMS := int(math.Round(float64(r.duration()*1000.0)) / float64((r.MediaTimescale * len(r.Segments))))
+			if asset.SegmentDurMS == 0 || avgSegDurMS < asset.SegmentDurMS {
+				asset.SegmentDurMS = avgSegDurMS
+			}
 		}
 	}
+	// Register the MPD only when all its representations have been loaded
+	asset.MPDs[mpdName] = md
 	logger.Info("Asset MPD loaded")
 	return nil
 }
